@@ -267,6 +267,12 @@ def check(ctx):
                         if dn.id in {b.id for b in g.loop_body_nodes(lp)} and any(
                                 isinstance(v, ast.Name) and v.id in norm(dn.ast.value) for v in ast.walk(lp.ast.target)):
                             derived = True
+                # element-wise collection:  for queue in table.values(): for req in queue: snapshot.append(req)  (every element, no filter)
+                for n_, c_ in g.find(lambda q: method_call(q, 'append') and norm(q.func.value) == it.id):
+                    outer = [x for x in g.nodes if x.kind == 'for' and norm(x.ast.iter).startswith(table) and n_.id in {b.id for b in g.loop_body_nodes(x)}]
+                    inner = [x for x in g.nodes if x.kind == 'for' and outer and norm(x.ast.iter) == norm(outer[0].ast.target) and n_.id in {b.id for b in g.loop_body_nodes(x)}]
+                    if outer and inner and norm(c_.args[0]) == norm(inner[0].ast.target) and g.fact_keys_at(n_) == g.fact_keys_at(outer[0]) and g.path_avoiding(cnode, [n_]) is None:
+                        derived = True
                 okl = bool(dnodes) and derived and all(g.path_avoiding(cnode, [dn]) is None for dn in dnodes)
                 # ... and that takes whole queues: no element selection (requests[0]) and no filter other than emptiness
                 for dn in dnodes:
